@@ -256,6 +256,7 @@ class LemmaUnit(Unit):
     induction, base + step as QF queries) and top-level property lemmas over component contracts."""
     file = '(lemma)'
     qual = 'lemma'
+    isolated = False
 
     def lemmas(self):
         """yield (name, hyps, goal)"""
@@ -269,6 +270,7 @@ class LemmaUnit(Unit):
             for name, hyps, goal in self.lemmas():
                 ob = Obligation(f'{self.qual}: {name}', list(hyps), goal, [], 'assert')
                 ob.unit = self.name
+                ob.isolated = bool(getattr(self, 'isolated', False))      # solve.py: solved in a z3 context of its own (history-independent search)
                 res['obligations'].append(ob)
                 res['covers'].setdefault(f'{self.qual}: hyps of {name}', []).append(list(hyps))
         except (KeyError, AttributeError, z3.Z3Exception, AssertionError, TypeError) as e:
